@@ -220,6 +220,31 @@ fn stream_line() -> impl Strategy<Value = Vec<Vec<u8>>> {
             s.cks = Cks::Delta(0x55);
             vec![s.render()]
         }),
+        // the same line twice or three times in a row (repeaters do that)
+        2 => (any::<u32>(), proptest::collection::vec(any::<u8>(), 24), 2usize..4, any::<bool>()).prop_map(|(m, n, times, bad)| {
+            let mut l = tagged_position(m & 0x3fff_ffff, &n);
+            if bad {
+                let k = l.len() - 1;
+                l[k] = if l[k] == b'0' { b'1' } else { b'0' };
+            }
+            vec![l; times]
+        }),
+        // long lines, accepted and rejected (up to the 384-character payload and beyond)
+        2 => (200usize..500, any::<u8>(), any::<bool>()).prop_map(|(n, salt, good)| {
+            let p: Vec<u8> = (0..n).map(|i| armor::ALPHABET[(i * 7 + salt as usize) & 63]).collect();
+            let mut s = Spec::simple(1, 1, None, b"A", &p, 0);
+            if !good {
+                s.cks = Cks::Delta(1);
+            }
+            vec![s.render()]
+        }),
+        1 => (200usize..600, hi()).prop_map(|(n, h)| vec![vec![h; n]]),
+        // odd line endings
+        1 => (any::<u32>(), proptest::collection::vec(any::<u8>(), 24), prop::sample::select(vec![&b"\r\r"[..], b" \r", b"\t", b"\r \r", b"\x0b"])).prop_map(|(m, n, end)| {
+            let mut l = tagged_position(m & 0x3fff_ffff, &n);
+            l.extend_from_slice(end);
+            vec![l]
+        }),
     ]
 }
 
